@@ -16,6 +16,13 @@ def pattern(n, pat):
         return b"\x55" * n
     if pat == "3c":
         return b"\x3C" * n
+    if pat in ("dos", "unix", "mac", "mixeol"):      # text with line ends of one convention (or all of them), an end-of-file mark, a TAB and a NUL
+        eol = {"dos": b"\r\n", "unix": b"\n", "mac": b"\r"}.get(pat)
+        if eol:
+            unit = b"10 PRINT \"HI\"" + eol + b"20 GOTO 10" + eol + eol + b"\tREM" + eol + b"\x1a"
+        else:
+            unit = b"A\r\nB\n\rC\r\r\nD\n\nE\r\x00\n\x1a\x1a\r\n"
+        return bytes(unit[i % len(unit)] for i in range(n))
     if pat.startswith("m"):            # marker triples 55 3C xx tiled, with a phase: m00.p0, m01.p2, mFF.p1
         xx = int(pat[1:3], 16)
         phase = int(pat.split(".p")[1]) if ".p" in pat else 0
